@@ -63,8 +63,9 @@ class World:
         # the other connection must fail at once instead of waiting for a lock
         self.ext_engine = sa.create_engine("sqlite:///" + fn, connect_args={"timeout": 0})
         Base = declarative_base()
+        from harness.lib_orm2 import odd_mixin
 
-        class T(Base):
+        class T(odd_mixin("id", "a0", "a1", "a2"), Base):
             __tablename__ = "t"
             id = sa.Column(sa.Integer, primary_key=True, autoincrement=False)
             a0 = sa.Column(sa.Integer)
